@@ -13,7 +13,7 @@ pub fn def() -> PropDef {
     PropDef {
         info: PropInfo {
             id: "C09",
-            rule: "case = VM kind (no-data, raw, metadata, fixed-metadata with a generated pair of non-overlapping offsets from {0,8,16,0x40,0x50,4088,32752,100000,1 MiB} in either order / adjacent / far apart) x a sequence of 1-4 packets of lengths {0,1,7,8,9,64,1500,random} placed at different addresses x a generated schedule of (engine, packet) executions over interpreter, x86-64 JIT and Cranelift on the SAME VM object. Probe programs: r1 at entry; r10 at entry; byte stores/loads at [r10-1] and [r10-512]; ldabsb/ldindb of the first packet byte; for the fixed-metadata VM *(r1+data_off), and *(r1+end_off) - *(r1+data_off). Oracle from the real addresses: r1 = metadata buffer / packet / 0 as documented; the stack region is disjoint from packet and metadata; packet loads return packet bytes; fixed VM: start pointer == address of the first packet byte when the packet is non-empty and end - start == length always, on every execution of the schedule and identically on the three engines. Non-trivial = fixed-metadata case with a non-empty packet, or a second-or-later execution; distinct by hash of (kind, offsets, lengths, schedule).",
+            rule: "case = VM kind (no-data, raw, metadata, fixed-metadata with a generated pair of non-overlapping offsets from {0,8,16,0x40,0x50,4088,32752,100000,1 MiB} in either order / adjacent / far apart) x a sequence of 1-4 packets of lengths {0,1,7,8,9,64,1500,random} placed at different addresses x a generated schedule of (engine, packet) executions over interpreter, x86-64 JIT and Cranelift on the SAME VM object. Probe programs: r1 at entry; r10 at entry; byte stores/loads at [r10-1] and [r10-512]; ldabsb/ldindb of the first packet byte; for the fixed-metadata VM *(r1+data_off), and *(r1+end_off) - *(r1+data_off), each read by the program itself and, in load-free programs, by a registered helper that is handed r1; for raw / metadata VMs the word a helper reads at *(r1). Oracle from the real addresses: r1 = metadata buffer / packet / 0 as documented; the stack region is disjoint from packet and metadata; packet loads return packet bytes; fixed VM: start pointer == address of the first packet byte when the packet is non-empty and end - start == length always, on every execution of the schedule and identically on the three engines. Non-trivial = fixed-metadata case with a non-empty packet, or a second-or-later execution; distinct by hash of (kind, offsets, lengths, schedule).",
             assumptions: &["for an empty packet only end - start == 0 is required of the fixed-metadata VM (DESIGN 6.2)", "out-of-stack accesses are covered by C02/C11, not here"],
         },
         run,
@@ -157,8 +157,29 @@ fn programs(c: &C9Case) -> Vec<(u8, Vec<u8>)> {
         p.push(Insn::new(alu_opc(true, ALU_SUB, true), 0, 2, 0, 0));
         p.push(exit);
         v.push((6u8, encode_prog(&p)));
+        // the same two observations by a helper that is handed the context pointer - the program
+        // itself contains no load instruction
+        let mov = |dst: u8, imm: u32| Insn::new(alu_opc(true, ALU_MOV, false), dst, 0, 0, imm as i32);
+        let movr = |dst: u8, src: u8| Insn::new(alu_opc(true, ALU_MOV, true), dst, src, 0, 0);
+        let call = Insn::new(CALL, 0, 0, 0, PEEK_ID as i32);
+        v.push((7u8, encode_prog(&[mov(2, c.data_off), call, exit])));
+        v.push((
+            8u8,
+            encode_prog(&[movr(7, 1), mov(2, c.end_off), call, movr(6, 0), movr(1, 7), mov(2, c.data_off), call, Insn::new(alu_opc(true, ALU_SUB, true), 6, 0, 0, 0), movr(0, 6), exit]),
+        ));
+    }
+    if matches!(kind, VmKind::Raw | VmKind::Mbuff { .. }) {
+        // what a helper sees at *(r1): the first eight bytes of the packet / metadata buffer
+        v.push((9u8, encode_prog(&[Insn::new(alu_opc(true, ALU_MOV, false), 2, 0, 0, 0), Insn::new(CALL, 0, 0, 0, PEEK_ID as i32), exit])));
     }
     v
+}
+
+const PEEK_ID: u32 = 7;
+
+/// helper: the 64-bit word at a1 + a2
+fn peek(a: u64, b: u64, _c: u64, _d: u64, _e: u64) -> u64 {
+    unsafe { std::ptr::read_unaligned(a.wrapping_add(b) as *const u64) }
 }
 
 const ENGINES: [Engine; 3] = [Engine::Interp, Engine::Jit, Engine::Cranelift];
@@ -192,6 +213,9 @@ unsafe fn child(mem: &Mem9, c: &C9Case) {
                 return;
             }
         };
+        if id >= 7 {
+            vm.register_helper(PEEK_ID, peek).expect("register_helper");
+        }
         let mut jit_ok = None;
         let mut cl_ok = None;
         for (e, pi) in &c.schedule {
@@ -202,6 +226,10 @@ unsafe fn child(mem: &Mem9, c: &C9Case) {
                 continue;
             }
             if matches!(kind, VmKind::NoData) && *pi != 0 {
+                continue;
+            }
+            // the helper of probe 9 reads eight bytes
+            if id == 9 && matches!(kind, VmKind::Raw) && len < 8 {
                 continue;
             }
             sh.stage = 100 * id as u32 + 10 * (*e as u32 % 3) + 1;
@@ -323,14 +351,23 @@ pub fn check(mem: &Mem9, c: &C9Case) -> Verdict {
                         return fail("packet-load-wrong", format!("{} returned {v:#x}, the first packet byte is {want:#x}", if r.prog == 3 { "ldabsb 0" } else { "ldindb r4(=0), 0" }));
                     }
                 }
-                5 => {
-                    if len > 0 && v != addr {
-                        return fail("fixed-mbuff-start-pointer", format!("*(r1+data_offset) = {v:#x}, the first packet byte is at {addr:#x}"));
+                9 => {
+                    let want = match kind {
+                        VmKind::Raw => u64::from_le_bytes(std::array::from_fn(|k| fill.wrapping_add(k as u8).wrapping_mul(7) | 1)),
+                        _ => 0x3333_3333_3333_3333,
+                    };
+                    if v != want {
+                        return fail("helper-sees-wrong-context", format!("a helper called with the entry value of r1 read {v:#x} at *(r1), the buffer starts with {want:#x}"));
                     }
                 }
-                6 => {
+                5 | 7 => {
+                    if len > 0 && v != addr {
+                        return fail("fixed-mbuff-start-pointer", format!("*(r1+data_offset) = {v:#x} ({}), the first packet byte is at {addr:#x}", if r.prog == 7 { "read by a helper that was passed r1; the program has no load instruction" } else { "read by the program" }));
+                    }
+                }
+                6 | 8 => {
                     if v != len as u64 {
-                        return fail("fixed-mbuff-end-pointer", format!("*(r1+end_offset) - *(r1+data_offset) = {v:#x}, the packet length is {len:#x}"));
+                        return fail("fixed-mbuff-end-pointer", format!("*(r1+end_offset) - *(r1+data_offset) = {v:#x} ({}), the packet length is {len:#x}", if r.prog == 8 { "read by a helper that was passed r1; the program has no load instruction" } else { "read by the program" }));
                     }
                 }
                 _ => {}
